@@ -88,6 +88,47 @@ NEEDS = {
     "C19-4": "free_list_array move assignment drops no_elements_. Needs: move assignment between collections with different max_node_size.",
     "C20-3": "joint_array move-with-joint constructor marked noexcept: a throwing element move terminates. Needs: the move form with a throwing move constructor.",
     "C20-4": "joint_array builder unwinds the joint stack (debug fill) before destroying the elements: destructors run on overwritten elements. Needs: fill on, failure at index >= 1, element whose destructor depends on its contents.",
+    # round 3
+    "C01-5": "memory_stack::top() takes the marker's block index from arena_.capacity()-1 (used + cached) instead of size()-1: with a cached block, unwind(m) takes the same-block branch for a marker in the previous block. Needs: grow, unwind across the boundary, top(), grow again, unwind(marker).",
+    "C01-6": "fixed_memory_stack::allocate drops '- size' from the capacity check: size and padding+fences are compared separately. Needs: a request at the tail of a region that fits without its padding but not with it (static_allocator, try_allocate, iteration try_allocate, collection reservations).",
+    "C02-5": "fixed_memory_stack::allocate computes the alignment padding after the space check. Needs: misaligned top, request into the last bytes of the block through static_allocator / try_allocate / joint memory / collection reservations.",
+    "C02-6": "swap(ordered_free_memory_list) no longer swaps node_size_: move assignment keeps the target's old node size. Needs: move assignment between array pools (debug: node pools) with different node sizes, target larger.",
+    "C03-5": "allocator_storage::allocate_array uses lock(); ...; unlock() instead of a lock_guard: a throwing allocator leaves the mutex locked. Needs: real mutex, stateful allocator, failing array request, then any further use.",
+    "C03-6": "joint_array iterator-range constructor constructs the element before bumping: the element that does not fit is written past the block before out_of_fixed_memory. Needs: range longer than the remaining joint memory, something watching the bytes behind the block.",
+    "C04-5": "ordered_free_memory_list move constructor initialises the last-deallocation cache to (begin proxy, end proxy). Needs: move-construct a pool with free nodes, then a release between two free nodes.",
+    "C04-6": "memory_pool_collection::try_deallocate_node refuses node_size >= max_node_size() (allocation uses >). Needs: composable release of a node of exactly the maximum size.",
+    "C05-5": "static_block_allocator::allocate_block advances cur_ before the exhaustion check: a failed request loses a block, the next LIFO release is reported invalid. Needs: exhaustion, then continued use.",
+    "C06-5": "memory_stack::allocate switches stack_ to the new block only after the bad_allocation_size checks (arena already grown). Needs: refused oversize request, exception caught, further use before unwinding.",
+    "C06-6": "~temporary_allocator no longer unwinds before shrink_to_fit (the member unwinder runs after the body). Needs: shrink_to_fit() on a scope that grew the stack.",
+    "C07-5": "iteration_allocator::try_allocate bounds the request by block_end(cur_+1). Needs: try_allocate that does not fit the current region, live memory in the next one.",
+    "C07-6": "iteration_allocator move constructor re-creates the stacks from block_start(i). Needs: allocate, move-construct, allocate again in the same iteration.",
+    "C08-5": "tracked_allocator::try_deallocate_array calls the tracker even when the allocator refused. Needs: tracked default of a fallback_allocator, array served by the fallback, tracker with a ledger.",
+    "C08-6": "composable traits of memory_pool release count*node_size() bytes for an array. Needs: composable array release, element size below the node size, live node behind the array.",
+    "C09-5": "tracked_allocator::is_stateful ignores a non-empty tracker: references to tracked<stateful tracker, stateless allocator> use a static default-constructed copy. Needs: such a tracker behind allocator_reference / std_allocator.",
+    "C09-6": "all stateless allocators share one identity behind any_allocator_reference: any_std_allocators over different stateless types compare equal. Needs: two stateless types, an operation that depends on equality.",
+    "C10-5": "std_allocator::propagate_on_container_swap takes the copy-assignment trait. Needs: user propagation_traits with copy false / swap true, swap of containers on different allocators.",
+    "C10-6": "allocator_polymorphic_deallocator converting constructor records sizeof/alignof of the base. Needs: unique_ptr<Derived, allocator_deallocator> converted to the base with different size.",
+    "C11-5": "joint_array builder destructor unwinds before destroying (same mechanism as C20-4, found again independently).",
+    "C11-6": "fixed_memory_stack::allocate compares padding+fences with remaining, not remaining - size. Needs: misaligned joint stack top, capacity in the narrow window.",
+    "C12-5": "small_free_memory_list move constructor keeps the cached chunk markers (they may point at the moved-from proxy). Needs: move-construct a small pool before its first deallocation, moved-from storage reused.",
+    "C12-6": "object_leak_checker move constructor does not zero the source. Needs: live traits allocations at the move, destruction of the moved-from object.",
+    "C13-5": "allocator_storage::max_node_size/max_array_size/max_alignment no longer lock. Needs: a thread querying while another allocates.",
+    "C13-6": "the composable members of allocator_storage only try_lock and report failure when the mutex is busy. Needs: contention on a composable member and a look at its result.",
+    "C13-7": "allocator_storage::allocate_node/array lock and unlock explicitly: an exception leaves the mutex locked. Needs: throwing wrapped allocator, then further use.",
+    "C14-5": "same mechanism as C06-5 seen through temporary_allocator scopes.",
+    "C14-6": "temporary_stack_list_node push retries its CAS with a stale next_: nodes pushed in between are cut out of the list. Needs: two threads creating stacks at once (hook points 6/7).",
+    "C15-5": "memory_pool_collection move assignment drops the leak_checker assignment. Needs: move assignment with non-zero net.",
+    "C15-6": "lowlevel_allocator::deallocate_node counts size instead of size + 2*fence. Needs: fences on, process-wide leak report at exit.",
+    "C16-5": "memory_stack::unwind drops the index check: a stale marker in a later (cached) block at a lower address is accepted. Needs: pointer check on, assertions off, descending block addresses.",
+    "C16-6": "swap(memory_arena) no longer swaps the cache: move assignment releases cached blocks to the wrong block source. Needs: cached arenas on LIFO-only sources, move assignment with a non-empty cache.",
+    "C17-5": "fixed_memory_stack::allocate rearranged check underflows with fences when remaining - size < 2*fence. Needs: fences, request of the last bytes.",
+    "C17-6": "ordered list allocate(n): array starting exactly at the last deallocated node leaves the cache pointing into the live array. Needs: the release pattern n0,n9,n5,n6,n4, allocate_array(3), release n2.",
+    "C18-5": "same mechanism as C06-5 (capacity_left() meaningless after a refused request).",
+    "C18-6": "fixed_memory_stack::allocate fit test forgets the trailing fence. Needs: fences, try_allocate of the last 1..8 bytes.",
+    "C19-5": "log2_access_policy::index_from_size caches its last result in unsynchronised function-local statics. Needs: two threads selecting buckets for different sizes.",
+    "C19-6": "is_valid_alignment uses the 32-bit popcount: alignments >= 2^32 are invalid. Needs: assertions on (debug) or a direct look at the predicate.",
+    "C20-5": "array element roll-back catches only std::exception. Needs: constructor throwing a non-std type at index >= 1.",
+    "C20-6": "joint_array move-into-joint constructor sets other.size_ = 0: the source's moved-from elements are never destroyed. Needs: the move form succeeding, counted constructions.",
 }
 res = {}
 if os.path.exists("/tmp/mut/results.jsonl"):
